@@ -339,3 +339,30 @@ def placeholder_not_visible_to_error_handling(chk, ctx):
                            "branch_info['Index'] of the placeholder (KeyError out of the timer callback after the next state was already published with the bogus stack), the Retrier "
                            "republishes the bogus stack (KeyError 'ID' in the gate, event dropped): the execution stays RUNNING for ever; for a later item the Catcher acts inside the previous iteration")
     chk.floor("C07.R9", n, 2, "placeholder pushes in the fan-out delegates")
+
+
+# ---------------------------------------------------------------------------------------------------------------------
+# C13.R10 / C12.R7 / C01 (D59): the template expander (`clone`, which renames and EVALUATES every member whose name ends in `.$`) is applied to
+# the template only, never to data: a copy of the input (the `"x.$": "$"` arm) is made with a data copier.
+def expander_applied_to_template_only(chk, ctx, rule):
+    sp = ctx.mod("state_engine_paths")
+    outer = sp.func("evaluate_payload_template")
+    params = [a.arg for a in outer.node.args.args]
+    if len(params) < 3:
+        raise AnalysisError("anchor not found: evaluate_payload_template(input, context, template)")
+    data_names = set(params[:2])
+    n = 0
+    for q, f in sorted(sp.funcs.items()):
+        if not (q == outer.qname or q.startswith(outer.qname + ".")):
+            continue
+        shadow = {a.arg for a in f.node.args.args} if f is not outer else set()
+        for c in _walk_no_nested(f.node):
+            if isinstance(c, ast.Call) and isinstance(c.func, ast.Name) and c.func.id == "clone" and c.args:
+                n += 1
+                reads = {x.id for x in ast.walk(c.args[0]) if isinstance(x, ast.Name)} - shadow
+                bad = reads & data_names
+                chk.ob(rule, "%s: clone(%s) expands (part of) the template" % (q, norm(c.args[0])), not bad, "",
+                       key="%s | the template expander is applied to data: `%s`" % (q, norm(c)), where=sp.line(c),
+                       message="clone() is the recursive template expander: applied to the input it renames and evaluates members of the DATA whose names end in .$ (against the input "
+                               "and the context object) and raises UnboundLocalError for a scalar input; a copy of data is made with copy.deepcopy")
+    chk.floor(rule, n, 3, "applications of the template expander")
